@@ -255,6 +255,14 @@ def generate(rng, profile):
             for j in range(len(l_idx)):
                 for s in range(len(s_idx)):
                     fields[name][a][j][s] = None
+        absent_rows = rng.random() < p.get("p_absent_rows", 0.25)
+        if absent_rows and fields:
+            # a station that did not report: every field missing for a few (time, leadtime, location)
+            # combinations; a sparse text file then has no row at all for them
+            for _ in range(rng.randint(1, 3)):
+                a, b_, c_ = rng.randrange(len(t_idx)), rng.randrange(len(l_idx)), rng.randrange(len(s_idx))
+                for g in fields.values():
+                    g[a][b_][c_] = None
         tsel = [times[i] for i in t_idx]
         if all(t % 86400 == 0 for t in tsel):
             timecol = rng.choice(["date", "date_hour", "unixtime"])
@@ -274,7 +282,7 @@ def generate(rng, profile):
             "colorder": cols,
             "cols_first": rng.random() < 0.2,
             "roworder": rng.choice(["tls", "slt", "lts", "rev", "rot"]),
-            "sparse": rng.random() < 0.3,
+            "sparse": rng.random() < (0.7 if absent_rows else 0.3),
             "sep": rng.choice([" ", " ", "\t", "   "]),
             "ncformat": rng.choice(["NETCDF3_CLASSIC", "NETCDF4", "NETCDF3_CLASSIC"]),
             "ncdtype": rng.choice(["f4", "f8"]),
